@@ -12,6 +12,8 @@ def trace_streams(tier, soft=True, classes=("conflict", "small", "dense", "greed
         out += [("conflict", f, "sync", "debug", 1200 * k), ("conflict", f, "sync", "release", 500 * k),
                 ("conflict", f, "yield", "debug", 300 * k), ("conflict", f, "gated:lifo", "debug", 200 * k),
                 ("conflict", f, "gated:random", "debug", 200 * k)]
+    if "conflict" in classes:
+        out += [("conflictx", f, "sync", "debug", 400 * k)]
     if "small" in classes:
         out += [("small", f, "sync", "debug", 600 * k)]
     if "dense" in classes:
